@@ -293,7 +293,11 @@ def ITE(c, a, b):
     if isinstance(a, tuple) and a and a[0] == "ite" and a[2] == b and b != NONE:
         return ITE(AND(c, NOT(a[1])), a[3], b)
     if c[0] == "not" or (c[0] == "cmp" and c[1] in ("isnot", "ne", "notin", "le")):
-        return ("ite", NOT(c), b, a)
+        return ITE(NOT(c), b, a)
+    if c[0] == "cmp" and c[1] == "lt" and a != b and {a, b} == {c[2], c[3]} and not any(x[0] == "const" and not isinstance(x[1], (int, float)) for x in (a, b)):
+        # `q if p < q else p` is max(p, q) and `p if p < q else q` is min(q, p) -- the very definition of the two builtins
+        p_, q_ = c[2], c[3]
+        return ("call", ("builtin", "max"), (p_, q_), ()) if a == q_ else ("call", ("builtin", "min"), (q_, p_), ())
     return ("ite", c, a, b)
 
 
@@ -1949,6 +1953,9 @@ class Evaluator:
         r = self.ev(n.right, live)
         if isinstance(n.op, ast.Add) and l[0] == "const" and r[0] == "const" and isinstance(l[1], str) and isinstance(r[1], str):
             return ("const", l[1] + r[1])  # "onset" + "_sample"
+        if isinstance(n.op, (ast.Add, ast.Sub, ast.Mult)) and l[0] == "const" and r[0] == "const" \
+                and all(isinstance(x[1], int) and not isinstance(x[1], bool) for x in (l, r)):
+            return fold_sub(("bin", BIN_AST[type(n.op)], l, r))
         return ("bin", BIN_AST.get(type(n.op), "?"), l, r)
 
     def e_BoolOp(self, n, live):
@@ -2544,6 +2551,10 @@ class Evaluator:
             lid0 = args[0][3][0][0]
             parts = [subst(args[0][2], {("elem", lid0): item}) for item in args[0][3][0][1][1]]
             return OR(*parts) if f[1] == "any" else AND(*parts)
+        # any((a, b)) over a display of conditions is a or b (a generator over a display arrives here as that display)
+        if f in (("builtin", "any"), ("builtin", "all")) and f[1] not in self.env and plain and len(args) == 1 and args[0][0] in ("tuple", "list") \
+                and 0 < len(args[0][1]) <= 8 and not any(x[0] == "star" for x in args[0][1]):
+            return OR(*args[0][1]) if f[1] == "any" else AND(*args[0][1])
         # itertools.filterfalse(p, xs) is (x for x in xs if not p(x))
         if f == ("ext", "itertools.filterfalse") and plain and len(args) == 2:
             lid = self.fresh("L")
@@ -3375,8 +3386,9 @@ class Evaluator:
         return live
 
     def _comp_unrolled(self, n, live, kind, elt_fn):
-        """[f(x) for x in (a, b, c)] over a literal display is the display [f(a), f(b), f(c)] (list / set / dict)"""
-        if kind == "gen" or len(n.generators) != 1:
+        """[f(x) for x in (a, b, c)] over a literal display is the display [f(a), f(b), f(c)] (list / set / dict); a generator
+        expression over a literal display is read as the tuple of its items (it is consumed once: unpacked, joined, summed)"""
+        if len(n.generators) != 1:
             return None
         g = n.generators[0]
         if g.ifs or g.is_async or not (isinstance(g.iter, (ast.Tuple, ast.List, ast.Name, ast.Attribute)) or (
@@ -3407,7 +3419,7 @@ class Evaluator:
             self.env = saved_env
         if kind == "dict":
             return fold_sub(("dict", tuple((e[1], e[2]) for e in out)))
-        return (kind, tuple(out))
+        return ("tuple" if kind == "gen" else kind, tuple(out))
 
     def _comp(self, n, live, kind, elt_fn):
         un = self._comp_unrolled(n, live, kind, elt_fn)
@@ -3750,6 +3762,7 @@ class Summaries:
     def of_node(self, module: Module, fn: ast.AST, qual: str, cls=None, outer_env=None) -> Summary:
         if qual in self._cache and outer_env is None:
             return self._cache[qual]
+        module = getattr(self.index, "node_home", {}).get(id(fn), module)  # a function installed as a method: its own module's names
         s = Evaluator(self.index, module, fn, qual, cls, outer_env).run()
         if outer_env is None:
             self._cache[qual] = s
@@ -3820,6 +3833,11 @@ def fold_sub(t):
     if t and t[0] == "bin" and t[1] == "+" and t[2][0] == "const" and t[3][0] == "const" and isinstance(t[2][1], str) \
             and isinstance(t[3][1], str):
         return ("const", t[2][1] + t[3][1])
+    if t and t[0] == "bin" and t[1] in ("+", "-", "*") and t[2][0] == "const" and t[3][0] == "const" \
+            and all(isinstance(x[1], int) and not isinstance(x[1], bool) for x in (t[2], t[3])):
+        # index arithmetic on integer constants (`bounds[axis + 2]` with axis = 0 after inlining): exact
+        a_, b_ = t[2][1], t[3][1]
+        return ("const", a_ + b_ if t[1] == "+" else (a_ - b_ if t[1] == "-" else a_ * b_))
     if t and t[0] == "dict" and any(k == ("dstar",) and v[0] == "dict" for k, v in t[1]):
         items = []
         for k, v in t[1]:
